@@ -70,16 +70,24 @@ static inline int strcmp(const char* a, const char* b)
 }
 
 /* ---- stream stub ------------------------------------------------------------------------------------------ */
+/* getline() returns the stream state by value (a reference return followed by .fail() crashes goto-instrument 6.11's inliner) */
+struct StreamState
+{
+   int unused;
+   bool good() const { return g_good != 0; }
+   bool eof() const { return g_eof != 0; }
+   bool fail() const { return g_fail != 0; }
+};
 struct IStreamStub
 {
-   IStreamStub& getline(char* b, size_t n)
+   StreamState getline(char* b, size_t n)
    {
       __CPROVER_assert(n == MAX_LINE_LEN, "getline is given sizeof(m_buf)");
       g_calls = (int)((unsigned)g_calls + 1u);
       if(g_remaining <= 0)
       {
          b[0] = '\0'; g_T = 0; g_good = 0; g_eof = 1; g_fail = 1;   /* end of file: nothing extracted, eofbit|failbit, sticky */
-         return *this;
+         { StreamState st; st.unused = 0; return st; }
       }
       g_remaining--; g_consumed++;
       __CPROVER_havoc_slice(b, MAX_LINE_LEN);
@@ -89,7 +97,7 @@ struct IStreamStub
       g_T = g_sc_k;                                        /* terminator witness, see contract.c */
       g_eof = nondet_int() != 0; g_fail = nondet_int() != 0;   /* normal line / last line without newline / overlong line / bad stream */
       g_good = !g_eof && !g_fail && nondet_int() != 0;          /* (badbit also clears good()) */
-      return *this;
+      { StreamState st; st.unused = 0; return st; }
    }
    bool good() const { return g_good != 0; }
    bool eof() const { return g_eof != 0; }
